@@ -238,7 +238,7 @@ B('C-setindex-flag-flip', ['C09'], 'frame.py', 'Frame.set_index',
 B('C-setindex-data-flip', ['C09'], 'frame.py', 'Frame.set_index',
   'blocks = self._blocks\n            columns = self._columns\n            own_data = False', 'blocks = self._blocks\n            columns = self._columns\n            own_data = True',
   'C.own-handoff', 'Frame.set_index')
-B('C-extract-own-null-slice', ['C09'], 'frame.py', 'Frame._extract',
+B('C-extract-own-null-slice', ['C09', 'C04'], 'frame.py', 'Frame._extract',
   'own_columns = self._COLUMNS_CONSTRUCTOR.STATIC', 'own_columns = True', 'C.own-handoff', 'Frame._extract')
 B('C-togo-own-columns', ['C09'], 'frame.py', 'FrameGO._to_frame',
   'own_columns=False, # all cases need new columns', 'own_columns=True,', 'C.', 'FrameGO._to_frame')
